@@ -64,8 +64,21 @@ def run_chain(chk, spec):
 	vectors = [vec(rng, n, rng.choice(NAMES)) for _ in range(3)]
 	tables = [table(rng, n, [rng.choice(NAMES) for _ in range(rng.choice([1, 2, 3]))]) for _ in range(2)]
 	trace = []
+	held = []
+
+	def check_held():
+		# no operation of the previous step may have renamed anything that already existed
+		for x, nm in held:
+			cur = x.column_names() if isinstance(x, Table) else x.name
+			if cur != nm:
+				fail_names(chk, f"operand-renamed/{trace[-1].split('(')[0].split(' ')[0] if trace else 'start'}", f"{trace}", cur, nm, "operations keep the stored names of the objects they read")
+				return False
+		return True
 	for depth in range(spec["depth"]):
-		kind = rng.choice(["vv", "vkeep", "ts", "tt", "build", "tkeep", "join"])
+		if depth and not check_held():
+			return
+		held = [(x, x.name) for x in vectors] + [(t, t.column_names()) for t in tables]
+		kind = rng.choice(["vv", "vkeep", "ts", "tt", "build", "tkeep", "join", "vv-date", "tattr"])
 		if kind == "vv":
 			a, b = rng.choice(vectors), rng.choice(vectors)
 			opn = rng.choice(["add", "sub", "mul", "truediv", "eq", "lt", "ne", "ge", "radd-list-none"])
@@ -81,6 +94,51 @@ def run_chain(chk, spec):
 					"binary arithmetic and comparisons between vectors give unnamed results")
 				return
 			vectors.append(o.value)
+		elif kind == "vv-date":
+			from datetime import date as _date
+			a = rng.choice(vectors)
+			d = Vector([_date(2020, 1, 1 + i) for i in range(n)], name=rng.choice(NAMES)) if n else None
+			if d is None:
+				continue
+			days = Vector([rng.choice([1, 2, 30]) for _ in range(n)], name=rng.choice(NAMES))
+			opn = rng.choice(["date+intvec", "date-date", "date<date", "date+days-list"])
+			f = {"date+intvec": lambda: d + days, "date-date": lambda: d - d.copy(), "date<date": lambda: d < d.copy(), "date+days-list": lambda: d + days}[opn]
+			o = call(f)
+			chk.judged("vector-op", ("vv-date", opn, ncls(d.name), ncls(days.name), depth))
+			trace.append(f"{opn}({d.name!r},{days.name!r})")
+			if not o.ok or not isinstance(o.value, Vector):
+				continue
+			if o.value.name is not None:
+				fail_names(chk, f"vector-vector/{opn}/result-named", f"{trace}", o.value.name, None, "binary arithmetic and comparisons between vectors give unnamed results")
+				return
+			if d.name is not None and (d.name, days.name) != (d.name, days.name):
+				pass
+		elif kind == "tattr":
+			# replacing a column through its accessor is an in-place write: every stored name stays (an unnamed column stays unnamed)
+			from . import pool as _pool
+			t0 = rng.choice(tables)
+			c = call(t0.copy)
+			if not c.ok or not isinstance(c.value, Table) or not c.value.cols() or len(c.value) == 0:
+				continue
+			t = c.value
+			names = t.column_names()
+			j = rng.randrange(len(names))
+			acc = _pool.accessor_for(t, j)
+			donor = vec(rng, len(t), rng.choice(["donor", "a", None, "Total $"]))
+			form = rng.choice(["vector", "list", "derived"])
+			src = donor if form == "vector" else (list(donor) if form == "list" else donor[::-1])
+			if acc is None:
+				continue
+			o = call(lambda: setattr(t, acc, src))
+			chk.judged("table-op", ("tattr", form, ncls(names[j]), ncls(donor.name), depth))
+			trace.append(f"tattr {names!r}[{j}] = {form} named {donor.name!r}")
+			if not o.ok:
+				continue
+			if t.column_names() != names:
+				fail_names(chk, f"table/attribute-replacement/{'unnamed-column' if names[j] is None else 'named-column'}", f"{trace}", t.column_names(), names,
+					"in-place writes keep the stored names (replacing a column keeps that column's stored name, None included)")
+				return
+			tables.append(t)
 		elif kind == "vkeep":
 			a = rng.choice(vectors)
 			opn = rng.choice(["copy", "slice", "slice-empty", "mask", "mask-vector", "sort_by", "sort_by-reverse", "write", "write-slice", "promote", "write-none"])
@@ -237,6 +295,7 @@ def run_chain(chk, spec):
 			tables.append(o.value)
 		vectors = vectors[-6:]
 		tables = tables[-5:]
+	check_held()
 
 
 def match_names(got, bases):
@@ -323,7 +382,8 @@ def gen_agg_names_spec(rng):
 	n = rng.choice([1, 2, 4])
 	nkeys = rng.choice([1, 1, 2, 3])
 	names, cols, over = [], [], []
-	keypool = ["k", "k", "g", "v_sum", "Total $", "sum", None, "v", "k2"]
+	keypool = ["k", "k", "g", "v_sum", "Total $", "sum", None, "v", "k2", "Customer ID", "Unit-Price"]
+	spellings = {"Customer ID": "customer_id", "Unit-Price": "unit_price"}
 	for i in range(nkeys):
 		nm = rng.choice(keypool)
 		kc = [rng.choice(["x", "y"]) for _ in range(n)]
@@ -336,6 +396,8 @@ def gen_agg_names_spec(rng):
 				names.append(nm)
 				cols.append(kc)
 				over.append({"mode": rng.choice(["name", "vector"]), "name": nm})
+				if nm in spellings and over[-1]["mode"] == "name" and rng.random() < 0.7:
+					over[-1]["spelled"] = spellings[nm]      # asked for by its sanitised spelling: the output still carries the STORED name
 	valnames = []
 	for nm in rng.sample(["v", "V", "Total $", "v 1", "2x", "mean", "k", "w"], rng.choice([1, 2, 3])):
 		if nm in names:
